@@ -67,11 +67,26 @@ func checkC18(w *World, r *Report) {
 		r.Check(okRender, "order.script-render", FuncName(ex)+": script rendered with the job's own variables", w.Pos(ex.Pos()), "RenderString(job.Command, job.Vars.Map())", "the command is not rendered with its own job's variables")
 		// the interpreter env is assigned from that list on the executor's interpreter
 	}
-	if np := w.FuncByName("taskctl", "NewPgidExecutor"); np != nil {
+	// the executor constructor: the function of package taskctl that builds the interpreter
+	if np := w.FuncByRole("taskctl", "NewPgidExecutor", func(f *ssa.Function) bool { return f.Parent() == nil && callsNamed(f, "interp.New") }); np != nil {
 		okBase := false
 		allInstrs(np, func(in ssa.Instruction) {
-			if st, ok := in.(*ssa.Store); ok && strings.HasSuffix(w.apAddr(st.Addr), ".env") && w.AP(st.Val) == "os.Environ()" {
+			st, ok := in.(*ssa.Store)
+			if !ok || !strings.HasSuffix(w.apAddr(st.Addr), ".env") {
+				return
+			}
+			if w.AP(st.Val) == "os.Environ()" {
 				okBase = true
+			}
+			// a base environment parameter: every construction passes os.Environ()
+			if p, ok := w.Resolve(st.Val).(*ssa.Parameter); ok && p.Parent() == np {
+				leaves := w.argOrigins(np, paramIdxOf(p), 0)
+				okBase = len(leaves) > 0
+				for _, l := range leaves {
+					if w.AP(l.v) != "os.Environ()" {
+						okBase = false
+					}
+				}
 			}
 		})
 		r.Check(okBase, "wiring.executor-base", FuncName(np)+": base environment", w.Pos(np.Pos()), "executor base ← os.Environ()", "the executor's base environment is not the process environment")
